@@ -60,6 +60,7 @@ class IdealReservoir:
             times to solve for pressure
         """
         self.time = time
+        self.__dict__.pop("recovery", None)  # cached recovery belongs to the previous run
         x = np.linspace(0, 1, self.nx)
         dx_squared = (x[1] - x[0]) ** 2
         pseudopressure = np.empty((len(time), self.nx))
@@ -181,6 +182,7 @@ class SinglePhaseReservoir(IdealReservoir):
         ValueError: wrong length changing pressure at frac-face
         """
         self.time = time
+        self.__dict__.pop("recovery", None)  # cached recovery belongs to the previous run
         dx_squared = (1 / self.nx) ** 2
         pseudopressure = np.empty((len(time), self.nx))
         if pressure_fracface is None:
